@@ -73,8 +73,9 @@ uint8_t * jls_mrb_alloc(struct jls_mrb_s * self, uint32_t size) {
             // fits after wrap
             add_sz(p, 0xffffffffU);
             p = self->buf;
-        } else if (head == tail) {
-            // Big item, but buffer is empty.  Reset pointers to make room.
+        } else if ((head == tail) && ((((uint64_t) size) + 8) <= self->buf_size)) {
+            // Big item, but buffer is empty.  Reset pointers to make room
+            // for the size prefix, the item and a later wrap marker.
             self->head = 0;
             self->tail = 0;
             p = self->buf;
